@@ -263,6 +263,8 @@ type tableItem struct {
 	// replay: only this ordered table (indices into Pool) and this index-block setting
 	Only      []int `json:"only,omitempty"`
 	OnlyBlock *bool `json:"onlyblock,omitempty"`
+	// positions 3.. of a table only take patterns with these Pool indices (nil = all)
+	Deep []int `json:"deep,omitempty"`
 }
 
 type tableOut struct {
@@ -379,6 +381,9 @@ func tableJob(raw json.RawMessage) (any, error) {
 			return
 		}
 		for k := range it.Pool {
+			if len(idx) >= 2 && it.Deep != nil && !containsInt(it.Deep, k) {
+				continue
+			}
 			dup := false
 			for _, j := range idx {
 				if j == k {
@@ -397,6 +402,15 @@ func tableJob(raw json.RawMessage) (any, error) {
 	}
 	out.Outcomes = keys(outc)
 	return out, nil
+}
+
+func containsInt(l []int, x int) bool {
+	for _, y := range l {
+		if y == x {
+			return true
+		}
+	}
+	return false
 }
 
 func smallestPerSig(vs []explore.Violation) []explore.Violation {
@@ -435,24 +449,33 @@ func runTables(rc *explore.RunCtx, mode string) {
 		pool   []string
 		size   int
 		maxLen int
+		deep   []string // patterns allowed at positions 3.. (nil = all)
 	}
+	core := []string{"/a/{x}", "/a/{x}/{y}", "/a/{x}/{y}/c", "/a/{x}-{y}", "/a/{x}/{y:\\d+}", "/a/{x:\\d+}", "/a/{x:\\d+}.h", "/a/b", "/{x}/b", "/a/{x}/", "/a/{z}/bd", "/a/{x:\\d+}/bc", "/a/{x:\\d+}/bd", "/a/{x}/bc", "/{xy}/c", "/{x}"}
+	mini := []string{"/a/{x}", "/a/{x}/{y}", "/a/{x}/{y}/c", "/a/{x:\\d+}", "/a/b", "/{x}/b", "/a/{x}/bc", "/a/{z}/bd"}
 	var plans []plan
 	if rc.Quick() {
 		for _, ic := range []string{"", "I1", "I2"} {
-			plans = append(plans, plan{RouterCfg{IC: ic}, poolD(ic, "quick"), 2, 4})
+			plans = append(plans, plan{RouterCfg{IC: ic}, poolD(ic, "quick"), 2, 4, nil})
 		}
 		// triples from the most interacting patterns
-		core := []string{"/a/{x}", "/a/{x}/{y}", "/a/{x}/{y}/c", "/a/{x}-{y}", "/a/{x}/{y:\\d+}", "/a/{x:\\d+}", "/a/{x:\\d+}.h", "/a/b", "/{x}/b", "/a/{x}/", "/a/{z}/bd", "/a/{x:\\d+}/bc"}
-		plans = append(plans, plan{RouterCfg{}, core, 3, 4})
+		plans = append(plans, plan{RouterCfg{}, core[:13], 3, 4, nil})
 	} else {
 		for _, ic := range []string{"", "I1", "I2"} {
-			plans = append(plans, plan{RouterCfg{IC: ic}, poolD(ic, "thorough"), 3, 5})
+			plans = append(plans, plan{RouterCfg{IC: ic}, poolD(ic, "thorough"), 3, 5, core})
 		}
+		plans = append(plans, plan{RouterCfg{}, mini, 4, 4, nil})
 	}
 	var items []tableItem
 	for _, p := range plans {
+		var deep []int
+		for _, d := range p.deep {
+			if k := indexOf(p.pool, d); k >= 0 {
+				deep = append(deep, k)
+			}
+		}
 		for i := range p.pool {
-			items = append(items, tableItem{Mode: mode, Router: p.cfg, Tier: rc.Tier, First: i, Size: p.size, Pool: p.pool, MaxLen: p.maxLen})
+			items = append(items, tableItem{Mode: mode, Router: p.cfg, Tier: rc.Tier, First: i, Size: p.size, Pool: p.pool, MaxLen: p.maxLen, Deep: deep})
 		}
 	}
 	rc.Set("table_items", len(items))
